@@ -50,16 +50,19 @@ func VerifHarness_C09_dispatch_mul() {
 	rt.Assume(len(in)%2 == 0)
 	mulByteSliceLE(c, in, out, rt.Bool("ssse3"))
 	rt.KernelCoverage(len(in))
+	rt.Assert(rt.GuardsIntact(), "nothing written past the end of the buffers (native replay)")
 }
 
 func VerifHarness_C09_dispatch_muladd() {
 	rt.Option("int-mode")
 	c := T(rt.U16("c"))
+	rt.Assume(c != 0) // the dispatch arithmetic does not depend on c; a non-zero c makes stray accumulations visible on replay
 	in := rt.AbstractBytes("in")
 	out := rt.AbstractBytesLen("out", len(in))
 	rt.Assume(len(in)%2 == 0)
 	mulAndAddByteSliceLE(c, in, out, rt.Bool("ssse3"))
 	rt.KernelCoverage(len(in))
+	rt.Assert(rt.GuardsIntact(), "nothing written past the end of the buffers (native replay)")
 }
 
 func VerifHarness_C09_size_mismatch() {
